@@ -237,7 +237,15 @@ Eigen::Matrix<S, D + 1, D + 1> solve(const CaseData<S, D> & cd, bool pre, bool a
       for (int d = 0; d < D; ++d) {nv[d] = static_cast<S>(nv[d] / std::sqrt(nn > 0 ? nn : 1.0));}
       ws.push_back(makePoint<P, S, D>(a, S(1))); wt.push_back(makePoint<P, S, D>(b, S(1))); wn.push_back(makePoint<P, S, D>(nv, cd.normalW));
     }
-    (void)est.find(ws, wt, wn);
+    if (pre) {
+      // preconditioned use has a past too: the larger problem was solved with another isotropic scale (7), so that a
+      // compensation left over from it - e.g. when the next scale happens to be exactly 1 - shows in the answer
+      PreconditionedPointSet<P> w1(ws, S(7)), w2(wt, S(7));
+      est.setPreconditioner(w1, w2);
+      (void)est.find(w1, w2, wn);
+    } else {
+      (void)est.find(ws, wt, wn);
+    }
   }
   if (!pre) {
     return aligned ? est.find(src, tgt, nrm) : est.find(src, tgt, nrm, corr);
@@ -281,7 +289,8 @@ void body(vf::Ctx & c)
   size_t nc = c.s.pick("n_class", {2, 3, 1});
   cd.n = (nc == 0) ? static_cast<int>(c.s.i("n", 6, 12)) : (nc == 1 ? static_cast<int>(c.s.i("n", 13, 60)) : static_cast<int>(c.s.len("n", 61, 500)));
   const int n = cd.n;
-  size_t layout = c.s.pick("layout", {1, 2, 2});   // identity correspondences / permuted / permuted + unmatched extra points
+  // identity correspondences / permuted / permuted + unmatched extra points / each source point matched ~3 times
+  size_t layout = c.s.pick("layout", {1, 2, 2, 1});
   int extraS = 0, extraT = 0;
   if (layout == 2) {extraS = static_cast<int>(c.s.i("extra_source", 0, 6)); extraT = static_cast<int>(c.s.i("extra_target", 0, 6));}
   const double Llo = isFloat ? 0.05 : 0.02, Lhi = isFloat ? 20.0 : 50.0;
@@ -302,7 +311,7 @@ void body(vf::Ctx & c)
   cd.theta = theta;
   cd.L = L;
   cd.noisy = noise != 0;
-  const int Ns = n + extraS, Nt = n + extraT;
+  const int Ns = (layout == 3) ? std::max(D + 1, n / 3) : n + extraS, Nt = n + extraT;
   // index maps
   std::vector<int> ps(Ns), pt(Nt);
   for (int i = 0; i < Ns; ++i) {ps[i] = i;}
@@ -311,7 +320,14 @@ void body(vf::Ctx & c)
     for (int i = Ns - 1; i > 0; --i) {std::swap(ps[i], ps[rng.below(i + 1)]);}
     for (int i = Nt - 1; i > 0; --i) {std::swap(pt[i], pt[rng.below(i + 1)]);}
   }
-  cd.si.assign(ps.begin(), ps.begin() + n);
+  if (layout == 3) {
+    // more correspondences than source points: source k is paired with about three different targets
+    cd.si.resize(n);
+    for (int r = 0; r < n; ++r) {cd.si[r] = r % Ns;}
+    for (int i = n - 1; i > 0; --i) {std::swap(cd.si[i], cd.si[rng.below(i + 1)]);}
+  } else {
+    cd.si.assign(ps.begin(), ps.begin() + n);
+  }
   cd.ti.assign(pt.begin(), pt.begin() + n);
   bool crossed = false;
   for (int r = 0; r < n; ++r) {crossed = crossed || cd.si[r] != cd.ti[r];}
@@ -412,8 +428,10 @@ void body(vf::Ctx & c)
   c.labelIf(cd.noisy, "noisy");
   c.labelIf(crossed, "source-index!=target-index");
   c.labelIf(layout == 2 && (extraS > 0 || extraT > 0), "unmatched-extra-points");
+  c.labelIf(layout == 3, "source-points-matched-several-times");
   c.labelIf(kk < 1, "precond-scale<1");
   c.labelIf(kk > 1, "precond-scale>1");
+  c.labelIf(kk == 1, "precond-scale-exactly-1");
   c.labelIf(kk <= 1e-2 || kk >= 1e2, "precond-scale-extreme(<=1e-2|>=1e2)");
   c.labelIf(n >= 100, "n>=100");
   c.labelIf(cd.normalW == S(1), "homogeneous-normal-w=1");
